@@ -18,7 +18,26 @@ BACKENDS = {
     'js_client+attrs': ['client.js', '-c', 'Client', '-a', 'auth', '-a', 'weight', '-a', 'beta', '-a', 'host', '-a', 'ratio'],
     'python_client+attrs': ['-m', 'base', '-c', 'Client', '-t', 'pkg', '-a', 'auth', '-a', 'weight', '-a', 'beta', '-a', 'host'],
     'tsd_types': ['types_template.d.ts'],
+    'tsd_client': ['client_template.d.ts', 'client.d.ts'],
+    # the Jinja-template backends (importable by the native interpreter, which has jinja2)
+    'swift_types': [],
+    'obj_c_types': [],
+    'obj_c_client': ['-m', 'Base', '-c', 'Client', '-t', 'Transport', '-y', '{}', '-z', '{"rpc":"RpcStyle"}'],
+    'tsd_client+attrs': ['client_template.d.ts', 'client.d.ts', '-a', 'auth', '-a', 'weight', '-a', 'beta', '-a', 'host', '-a', 'ratio'],
 }
+# template files are inputs of the TypeScript backends: (file name, content)
+TEMPLATES = {'tsd_types': ('types_template.d.ts', '/*TYPES*/\n'), 'tsd_client': ('client_template.d.ts', '/*ROUTES*/\n')}
+
+
+def with_template(backend_name, folder):
+    """the argument list of the backend, its template argument replaced by a file written into `folder`"""
+    args = list(BACKENDS[backend_name])
+    t = TEMPLATES.get(module_of(backend_name))
+    if t is not None:
+        tpl = os.path.join(folder, t[0])
+        open(tpl, 'w').write(t[1])
+        args[0] = tpl
+    return args
 
 
 def module_of(name):
@@ -42,12 +61,7 @@ def generate(backend_name, which, outdir):
     from stone.compiler import Compiler
     backend = importlib.import_module('stone.backends.' + module_of(backend_name))
     api = specs_to_ir(spec_set(which))
-    args = list(BACKENDS[backend_name])
-    if backend_name == 'tsd_types':
-        # the template file is an input of this backend
-        tpl = os.path.join(outdir, '..', 'types_template.d.ts')
-        open(tpl, 'w').write('/*TYPES*/\n')
-        args = [tpl]
+    args = with_template(backend_name, os.path.join(outdir, '..'))
     Compiler(api, backend, args, outdir, clean_build=False).build()
     out = {}
     for dp, dns, fns in os.walk(outdir):
